@@ -172,6 +172,29 @@ func c12ScenarioTable() []c12Scenario {
 			fld("work", "message").msg(cMessage("Addr2", fld("street", "string"))).ann("IsFlattenField", tru).ann("GetFlattenPrefix", constStr("work_")))
 		return map[string]Val{"message": m}
 	})
+	add("two flattened fields with the same prefix sharing a child name", A, "ValidateFlattenCollisions", true, func() map[string]Val {
+		m := cMessage("User", fld("home", "message").msg(cMessage("Addr", fld("street", "string"))).ann("IsFlattenField", tru).ann("GetFlattenPrefix", constStr("a_")),
+			fld("work", "message").msg(cMessage("Addr2", fld("street", "string"))).ann("IsFlattenField", tru).ann("GetFlattenPrefix", constStr("a_")))
+		return map[string]Val{"message": m}
+	})
+	add("prefixed and unprefixed flattened fields sharing a child name", A, "ValidateFlattenCollisions", false, func() map[string]Val {
+		m := cMessage("User", fld("home", "message").msg(cMessage("Addr", fld("street", "string"))).ann("IsFlattenField", tru).ann("GetFlattenPrefix", constStr("home_")),
+			fld("work", "message").msg(cMessage("Addr2", fld("street", "string"))).ann("IsFlattenField", tru))
+		return map[string]Val{"message": m}
+	})
+	add("unprefixed and prefixed flattened fields sharing a child name (other order)", A, "ValidateFlattenCollisions", false, func() map[string]Val {
+		m := cMessage("User", fld("work", "message").msg(cMessage("Addr2", fld("street", "string"))).ann("IsFlattenField", tru),
+			fld("home", "message").msg(cMessage("Addr", fld("street", "string"))).ann("IsFlattenField", tru).ann("GetFlattenPrefix", constStr("home_")))
+		return map[string]Val{"message": m}
+	})
+	add("prefix + child of one flattened field equals an unprefixed child of another", A, "ValidateFlattenCollisions", true, func() map[string]Val {
+		c1 := cMessage("Addr", fld("street", "string"))
+		c2 := cMessage("Addr2", fld("h_street", "string"))
+		c2.Fields["Fields"].(VList).Elems[0].(*VStruct).Fields["Desc"].(*VStruct).Fields["JSONName()"] = constStr("h_street")
+		m := cMessage("User", fld("home", "message").msg(c1).ann("IsFlattenField", tru).ann("GetFlattenPrefix", constStr("h_")),
+			fld("work", "message").msg(c2).ann("IsFlattenField", tru))
+		return map[string]Val{"message": m}
+	})
 	add("prefix makes a flattened child collide with a parent field", A, "ValidateFlattenCollisions", true, func() map[string]Val {
 		m := cMessage("User", fld("home_street", "string"), fld("home", "message").msg(cMessage("Addr", fld("street", "string"))).ann("IsFlattenField", tru).ann("GetFlattenPrefix", constStr("home_")))
 		m.Fields["Fields"].(VList).Elems[0].(*VStruct).Fields["Desc"].(*VStruct).Fields["JSONName()"] = constStr("home_street")
